@@ -859,6 +859,11 @@ ExecResult RunExecution(const Scenario& sc, const std::map<std::string, std::str
     g.root = st.get();
     g.by_fid[st->fid] = st.get();
     g.procs.push_back(std::move(st));
+    // any scenario: "weak=<n>" allows the controller n spurious weak-CAS failures per execution (the standard allows
+    // them everywhere; used by exploration that is judged by the abstract monitors only)
+    if (ctx.ParamInt("weak", -1) >= 0) {
+      ctx.EnableWeakFail(static_cast<int>(ctx.ParamInt("weak", 0)));
+    }
     sc.run(ctx);
     g.root_done = true;
   };
